@@ -1,6 +1,7 @@
 import ClusterVerif.Lemmas.C13Log
 import ClusterVerif.Lemmas.C13Deliv
 import ClusterVerif.Lemmas.C13Import
+import ClusterVerif.Model.C13Flow
 /-!
 C13 — property theorems about the bookkeeping model (Model/C13.lean) of the adders' DAG
 services. They hold for every block stream, every allocation script, every script of
@@ -463,3 +464,197 @@ example : (importRoot ({ chunkSize := 2, width := 2 } : Params) exTree).isSome =
 end Imp
 
 end CV.C13
+
+/-! ## Round 8 — the single DAG service interpreted from its source; the front of `FromFiles` -/
+namespace CV.C13.Flow
+open CV CV.C13
+
+/-- the statements of single.New / Add / Finalize read from the source are the program the model was written for -/
+theorem gen_single_flow : Gen.singleFlow = code := by decide
+
+/-- shard.go: `AddLink` adds the block's size and numbers links by position; `Flush` = makeDAG, AddMany, pin with the
+    shard's allocations / shard type / reference iff a previous shard / ShardSize = Size(); `Size` / `Limit` getters -/
+theorem gen_shard_flow : Gen.shardAddLink = shardAddLinkCode ∧ Gen.shardFlush = shardFlushCode ∧
+    Gen.shardSize = [.retCurrentSize] ∧ Gen.shardLimit = [.retSizeLimit] := by decide
+
+/-- adder.go `FromFiles`: the statement order the model `fromFiles` was written for -/
+theorem gen_fromfiles_flow : Gen.fromFiles = fromFilesCode := by decide
+
+/-- the interpreted `Add` of that program is the model's `singleAdd` -/
+theorem addF_code (c : Cfg) (s : SSt) (b : Blk) : addF code c s b = singleAdd c s b := by
+  unfold addF singleAdd
+  cases hd : s.dests with
+  | some d => simp [code, tailRun]
+  | none =>
+    rcases ha : allocate c s.env with ⟨e, _ | d⟩
+    · simp [code, List.foldl, guardedStep, ha, hd]
+    · cases hl : c.local <;> simp [code, List.foldl, guardedStep, ha, hl, hd, evalBA, tailRun]
+
+/-- the interpreted `Finalize` of that program is the model's `singleFinalize` -/
+theorem finF_code (c : Cfg) (s : SSt) (root : Nat) : finF code c s root = singleFinalize c s root := by
+  unfold finF singleFinalize
+  simp only [code, List.foldl, finStep, newOpts, rootPin, workOpts]
+  rcases hp : pinCall c s.env { pinWithOpts root { c.opts with mode := .recursive } with allocs := s.dests.getD [] } with ⟨e, _ | _⟩ <;> simp
+
+theorem addAllG_single (c : Cfg) (s : SSt) (l : List Blk) (i : Nat) (failed : List Nat) :
+    addAllG (singleAdd c) s l i failed = singleAddAll c s l i failed := by
+  induction l generalizing s i failed with
+  | nil => simp [addAllG, singleAddAll]
+  | cons b bs ih =>
+    unfold addAllG singleAddAll
+    rcases h : singleAdd c s b with ⟨s1, st⟩
+    cases st <;> simp [ih]
+
+/-- **Refinement**: a not-sharded add executed by the program read from adder/single/dag_service.go is the model's
+    `runSingle`, for every configuration, block stream, allocation / fault script — so every theorem about `run`
+    with `shard = false` (`no_pin_on_failure`, `pins_on_success_single`, `bookkeeping_partial`, `blocks_delivered`)
+    is a theorem about that program. -/
+theorem single_flow_refines (c : Cfg) (stream : List Blk) (fin : Option Nat) :
+    runSingleF Gen.singleFlow c stream fin = runSingle c stream fin := by
+  rw [gen_single_flow]
+  have hadd : addF code c = singleAdd c := by funext s b; exact addF_code c s b
+  unfold runSingleF runSingle
+  rw [hadd, addAllG_single]
+  rcases h : singleAddAll c SSt.init stream 0 [] with ⟨s, failed⟩
+  cases fin with
+  | none => rfl
+  | some r => simp only [finF_code]
+
+/-- ... for instance: on failure the interpreted program has no data / meta pin accepted -/
+theorem flow_no_pin_on_failure (c : Cfg) (stream : List Blk) (fin : Option Nat) (hwf : wf c stream = true)
+    (hs : c.shard = false) (hfail : (runSingleF Gen.singleFlow c stream fin).status ≠ .ok) :
+    ∀ p ∈ acceptedPins (runSingleF Gen.singleFlow c stream fin).pins, p.type ≠ .dataT ∧ p.type ≠ .metaT := by
+  have hrun : run c stream fin = runSingle c stream fin := by simp [run, hs]
+  rw [single_flow_refines] at hfail ⊢
+  rw [← hrun] at hfail ⊢
+  exact no_pin_on_failure c stream fin hwf hfail
+
+def flowCfg : Cfg :=
+  { shard := false, «local» := false,
+    opts := { rmin := 1, rmax := 2, name := 0, mode := .direct, shard := 0, expire := .zero, metadata := [],
+              update := none, origins := [], ualloc := [] },
+    allocs := [[1, 2], [3]], afail := [], pfail := [], faults := [⟨1, 1, 1, .rpc⟩] }
+def flowStream : List Blk := [⟨1, 5⟩, ⟨2, 7⟩, ⟨3, 5⟩]
+
+/-- a concrete add (direct mode requested, two destinations, one dropped after an RPC error) that succeeds and meets
+    every bookkeeping clause when run by the program read from the source -/
+example : wf flowCfg flowStream = true ∧ (runSingleF Gen.singleFlow flowCfg flowStream (some 3)).status = .ok ∧
+    (bookkeeping flowCfg ((runSingleF Gen.singleFlow flowCfg flowStream (some 3)).view flowStream true true true true)).all (·.2) = true := by
+  decide
+
+/-- what a reordered / shortened dag_service.go would do to the property: each of these programs succeeds on the
+    add above and fails a clause of the Spec (so the statement order is load-bearing, not a matter of style):
+    * `dgs.dests = nil` before `rootPin.Allocations = dgs.dests`, or the assignment dropped: the root is pinned
+      without the allocations the blocks were sent to;
+    * `New` not forcing recursive mode: the root is pinned in direct mode, its blocks are not covered;
+    * `dgs.dests = dests` dropped: a fresh `BlockAllocate` (and BlockAdder) for every block — other calls than the
+      model's (here the Spec cannot tell from the model's own view, whose destinations are read off `dgs.dests`;
+      on the implementation the destinations come from the BlockPut log) -/
+theorem reordered_programs_break_property :
+    (∀ f ∈ [resetFirst, noAllocs, noForce],
+      (runSingleF f flowCfg flowStream (some 3)).status = .ok ∧
+      holds flowCfg ((runSingleF f flowCfg flowStream (some 3)).view flowStream true true true true) = false) ∧
+    (runSingleF noStore flowCfg flowStream (some 3)).log ≠ (runSingle flowCfg flowStream (some 3)).log := by
+  decide
+
+/-- fail-closed: a program whose allocation guard is not the recognised `dgs.dests == nil` never adds a block -/
+theorem unknown_guard_never_ok (f : SingleFlow) (h : f.guard = .other) (c : Cfg) (s : SSt) (b : Blk) :
+    addF f c s b = (s, .panic) := by
+  simp [addF, h]
+
+/-! ### `FromFiles` -/
+
+theorem fromFiles_refused (i : FIn) (h : i.format = .bad ∨ i.refused = true) : fromFiles i = ⟨[], none⟩ := by
+  unfold fromFiles
+  rcases h with h | h <;> simp [h]
+
+/-- an entry whose `Add` fails: no `Finalize` (unixfs: every entry is walked) -/
+theorem loop_error_no_finalize (i : FIn) (hf : i.format ≠ .car) (es : List (Option Nat)) (k root : Nat) (added : List Nat)
+    (h : none ∈ es) : (loop i es k root added).finalize = none := by
+  induction es generalizing k root added with
+  | nil => simp at h
+  | cons e es ih =>
+    unfold loop
+    by_cases hc : i.cancelBefore = some k
+    · simp [hc]
+    · cases e with
+      | none => simp [hc]
+      | some r =>
+        have hin : none ∈ es := by simpa using h
+        simp [hc, hf, ih _ _ _ hin]
+
+/-- a broken entry iterator (truncated multipart body): no `Finalize` -/
+theorem loop_itErr_no_finalize (i : FIn) (hf : i.format ≠ .car) (hit : i.itErr = true) (es : List (Option Nat)) (k root : Nat)
+    (added : List Nat) : (loop i es k root added).finalize = none := by
+  induction es generalizing k root added with
+  | nil => simp [loop, hit]
+  | cons e es ih =>
+    unfold loop
+    by_cases hc : i.cancelBefore = some k
+    · simp [hc]
+    · cases e with
+      | none => simp [hc]
+      | some r => simp [hc, hf, ih]
+
+/-- cancellation before an entry that would be reached: no `Finalize` -/
+theorem loop_cancel_no_finalize (i : FIn) (hf : i.format ≠ .car) (j : Nat) (hcn : i.cancelBefore = some j) (es : List (Option Nat))
+    (k root : Nat) (added : List Nat) (hk : k ≤ j) (hj : j < k + es.length) : (loop i es k root added).finalize = none := by
+  induction es generalizing k root added with
+  | nil => simp at hj; omega
+  | cons e es ih =>
+    unfold loop
+    by_cases hc : j = k
+    · simp [hcn, hc]
+    · have hne : ¬ (i.cancelBefore = some k) := by rw [hcn]; simpa using hc
+      cases e with
+      | none => simp [hcn, hc]
+      | some r =>
+        have := ih (k + 1) r (added ++ [k]) (by omega) (by simp at hj; omega)
+        simp [hcn, hc, hf, this]
+
+/-- the good case: every entry added, in order, `Finalize` with the root of the last one -/
+theorem loop_all_ok (i : FIn) (hf : i.format = .unixfs) (hit : i.itErr = false) (hcn : i.cancelBefore = none) (rs : List Nat)
+    (k root : Nat) (added : List Nat) :
+    loop i (rs.map some) k root added = ⟨added ++ List.range' k rs.length, some (rs.getLast?.getD root)⟩ := by
+  induction rs generalizing k root added with
+  | nil => simp [loop, hit]
+  | cons r rs ih =>
+    unfold loop
+    simp only [List.map_cons, hcn, hf]
+    rw [ih]
+    cases rs with
+    | nil => simp [List.range'_succ]
+    | cons x xs =>
+      have hne : (x :: xs).getLast? = some ((x :: xs).getLast (by simp)) := List.getLast?_eq_some_getLast (by simp)
+      simp [List.range'_succ, hne]
+
+/-- **No pin unless `FromFiles` reaches `Finalize`**: whenever the front refuses the parameters, an entry fails, the
+    context is cancelled or the input breaks — `(fromFiles i).finalize = none` — the add has no data / meta pin
+    accepted, whatever blocks were handed to the DAG service before (composition with `no_pin_on_failure`). -/
+theorem front_failure_no_pin (i : FIn) (c : Cfg) (stream : List Blk) (hwf : wf c stream = true)
+    (h : (fromFiles i).finalize = none) :
+    ∀ p ∈ acceptedPins (run c stream (fromFiles i).finalize).pins, p.type ≠ .dataT ∧ p.type ≠ .metaT := by
+  rw [h]
+  apply no_pin_on_failure c stream none hwf
+  intro hok
+  have hfin := ok_finalized c stream none hok
+  revert hfin
+  unfold run
+  split_ifs
+  · unfold runShard
+    rcases hh : shAddAll c ShSt.init stream 0 [] with ⟨s, pan, failed⟩
+    cases pan <;> simp
+  · unfold runSingle
+    rcases hh : singleAddAll c SSt.init stream 0 [] with ⟨s, failed⟩
+    simp
+
+example : fromFiles ⟨.unixfs, false, false, [some 7, none, some 9], none, none, false⟩ = ⟨[0, 1], none⟩ ∧
+    fromFiles ⟨.unixfs, false, false, [some 7, some 9], none, none, false⟩ = ⟨[0, 1], some 9⟩ ∧
+    fromFiles ⟨.unixfs, false, false, [some 7, some 9], none, some 1, false⟩ = ⟨[0], none⟩ ∧
+    fromFiles ⟨.unixfs, false, false, [some 7, some 9], none, none, true⟩ = ⟨[0, 1], none⟩ ∧
+    fromFiles ⟨.car, false, false, [some 7, some 9], none, none, false⟩ = ⟨[0], some 7⟩ ∧
+    fromFiles ⟨.car, true, false, [some 7], some 8, none, false⟩ = ⟨[0], none⟩ ∧
+    fromFiles ⟨.unixfs, true, false, [some 7, some 9], some 8, none, false⟩ = ⟨[0], some 8⟩ ∧
+    fromFiles ⟨.unixfs, false, true, [some 7], none, none, false⟩ = ⟨[], none⟩ := by decide
+
+end CV.C13.Flow
